@@ -148,6 +148,8 @@ def check(prop, tier, seed):
             bounded_parts.append({'job': j.name, 'bound': j.bounded})
         for t in getattr(j, 'trusted', []) or []:
             trusted.add(t)
+        for t in r.get('trusted_library_calls', []) or []:
+            trusted.add('library call under the default contract (touches only its own opaque object): ' + t.split('(')[0][:120])
     # obligations left UNKNOWN by cbmc: undecided, unless the same job already has a violation of this property
     vio_jobs = set(j.name for j, r, ob, tag in violations) | set(j.name for kf, j, ob, tag in known)
     for j, ob in unknowns:
